@@ -185,6 +185,57 @@ def check_clip_cascade(repo: Repo, rep: Report, rule: str):
     rep.ok(rule, F + " [cascade]", "children of a clipPath inherit clip-rule from the clipPath element", True)
 
 
+def check_clip_rule_context(repo: Repo, rep: Report, rule: str):
+    """The children of a clipPath are read in the clipPath's own context: the clip-rule (or fill-rule) in effect at the element that
+    references the clip - own attribute or inherited from a group - does not reach them.  Decided on the traversal of a document
+    whose clipPath neither carries nor inherits a clip-rule (so the known deviation about the clipPath's own attribute is not involved)."""
+    svg = repo["svg"]
+    F = "svg.SVG._traverse"
+    fn = svg.func("SVG._resolve_clip_path")
+
+    def build():
+        c = El("clipPath", {"id": "c"}, [El("path", {"d": pd(("M", (0, 0)), ("L", (4, 0)), ("L", (4, 4)), ("Z", ()), ("M", (1, 1)), ("L", (3, 1)), ("L", (3, 3)), ("Z", ()))}, name="star"),
+                                         El("rect", {"width": "4", "height": "3", "clip-rule": "evenodd"}, name="r1")], name="c")
+        tri = lambda i: pd(("M", (i, i)), ("L", (i + 2, i)), ("L", (i + 2, i + 2)), ("Z", ()))
+        kids = [El("defs", {}, [c]),
+                El("g", {"clip-rule": "evenodd", "fill-rule": "evenodd", "id": "grp"}, [El("path", {"id": "in-group", "d": tri(1), "clip-path": "url(#c)"}, name="in-group")], name="grp"),
+                El("path", {"id": "own-attr", "d": tri(4), "clip-path": "url(#c)", "clip-rule": "evenodd"}, name="own-attr"),
+                El("path", {"id": "own-style", "d": tri(6), "clip-path": "url(#c)", "style": "clip-rule:evenodd"}, name="own-style"),
+                El("g", {"id": "clipped-group", "clip-path": "url(#c)", "clip-rule": "evenodd"}, [El("path", {"id": "child", "d": tri(8)}, name="child")], name="clipped-group"),
+                El("path", {"id": "plain", "d": tri(10), "clip-path": "url(#c)"}, name="plain")]
+        return ([make_svg(El("svg", {"viewBox": "0 0 20 20"}, kids, name="root"))], {})
+
+    outs = ok_outcomes(run(repo, "SVG.depth_first", build), F)
+    probs, n = [], 0
+    for o in outs:
+        if o.raised:
+            probs.append(f"the traversal raises {o.raised} ({o.raise_msg})")
+            continue
+        for ctx in o.value:
+            name = ctx.f["element"].name
+            if name not in ("in-group", "own-attr", "own-style", "clipped-group", "child", "plain"):
+                continue
+            clips = list(ctx.f["clips"])
+            if len(clips) != 1:
+                probs.append(f"{name}: {len(clips)} clips in its context (1 expected)")
+                continue
+            g = unseq(geom_of(clips[0])) if isinstance(clips[0], Rec) else None
+            if not (isinstance(g, GeomTok) and g.term[0] == "union"):
+                raise AnalysisError(f"{F}: unexpected clip term {g!r}"[:200])
+            n += 1
+            rules = tuple(g.term[2])
+            if rules != ("nonzero", "evenodd"):
+                probs.append(f"the clip of <{name}> (clip-rule evenodd in effect there) reads the children of the clipPath under rules {rules}; they are (nonzero, evenodd): "
+                             "a child without its own clip-rule takes it from the clipPath's ancestors, never from the referencing element")
+    if probs:
+        u = list(dict.fromkeys(probs))
+        rep.fail(rule, F, "clip-rule in effect at the referencing element", f"{len(u)} deviations; first: {u[0]}", svg, fn)
+    elif n < 6:
+        raise AnalysisError(f"{F}: only {n} clipped contexts were seen")
+    else:
+        rep.ok(rule, F + " [referencing context]", f"{n} clipped contexts (rule by group, attribute, style, on a clipped group, none): the clipPath's children are read under their own rules", True)
+
+
 def check_resolve_clip_path(repo: Repo, rep: Report, rule: str):
     svg = repo["svg"]
     F = "svg.SVG._resolve_clip_path"
